@@ -13,6 +13,7 @@ package main
 
 import (
 	"bytes"
+	"encoding/json"
 	"fmt"
 	"io/ioutil"
 	"os"
@@ -415,9 +416,56 @@ func c04BLabels(sc c04Scenario, res *c04BResult) []string {
 	return l
 }
 
+type c04Replay struct {
+	Scenario c04Scenario
+	Choices  []int
+}
+
 func c04BFail(t vkT, env *c04BEnv, res *c04BResult, msg string) {
+	// schedule artifact for ./check C04 --replay (unit exhaustive)
+	if w := os.Getenv("VERIF_WORK"); w != "" {
+		js, _ := json.Marshal(c04Replay{Scenario: env.sc, Choices: res.Choices})
+		p := filepath.Join(w, "c04-schedule.json")
+		if ioutil.WriteFile(p, js, 0644) == nil {
+			fmt.Printf("VERIF-REPLAY: %s\n", p)
+		}
+	}
 	t.Fatalf("C04 violated (interleaving): %s\n scenario: %v\n schedule (actor 0 = %s, actor 1 = %s), steps in the order they were released:\n   %s\n choices: %v\n responses: g1=%d g2=%d\n log:\n%s",
 		msg, env.sc, env.sc.G1, env.sc.G2, strings.Join(res.Events, "\n   "), res.Choices, res.G1Code, res.G2Code, env.log.String())
+}
+
+
+// c04MaybeReplay re-runs the single schedule stored in $VERIF_REPLAY (written
+// by c04BFail) instead of the generated ones.
+func c04MaybeReplay(t *testing.T) bool {
+	rp := os.Getenv("VERIF_REPLAY")
+	if !strings.HasSuffix(rp, ".json") {
+		return false
+	}
+	var r c04Replay
+	buf, err := ioutil.ReadFile(rp)
+	if err == nil {
+		err = json.Unmarshal(buf, &r)
+	}
+	if err != nil {
+		t.Fatalf("VERIF-INFRA: replay file %s: %v", rp, err)
+	}
+	env := c04NewBEnv(t, r.Scenario)
+	defer env.Close()
+	pos := 0
+	res := env.run(t, func() int {
+		c := 0
+		if pos < len(r.Choices) {
+			c = r.Choices[pos]
+		}
+		pos++
+		return c
+	})
+	if msg := env.oracle(res); msg != "" {
+		c04BFail(t, env, res, msg)
+	}
+	t.Logf("replayed schedule %v of %v: no violation; steps %v", r.Choices, r.Scenario, res.Events)
+	return true
 }
 
 // TestVerifC04Interleave samples schedules with rapid.
@@ -426,6 +474,9 @@ func TestVerifC04Interleave(t *testing.T) {
 	vkCheckStaticPoints(t)
 	runtime.GOMAXPROCS(2)
 	defer runtime.GOMAXPROCS(1)
+	if c04MaybeReplay(t) {
+		return
+	}
 	rapid.Check(t, func(t *rapid.T) {
 		sc := c04GenScenario(t)
 		env := c04NewBEnv(t, sc)
@@ -464,6 +515,9 @@ func TestVerifC04Exhaustive(t *testing.T) {
 				}
 			}
 		}
+	}
+	if c04MaybeReplay(t) {
+		return
 	}
 	// shard the scenario list
 	shard, nshards := vkShard()
